@@ -35,6 +35,9 @@ def run(rep, tier):
     arc_length_laws(rep, F)
     deprecated_twins(rep, F)
     euclidean_primitives(rep, F)
+    # the ratio forms multiply by length(self): the length of a line string is the sum over ALL its segments (table shared with C16)
+    from . import c16
+    c16.length_tables(rep, F, "R15.9", tier)
 
 
 def table(F, fn, loop_bound=1):
@@ -360,6 +363,10 @@ def deprecated_twins(rep, F):
     lines2 = [[(0.0, 0.0), (3.0, 4.0)], [(1.0, 5.0), (1.0, -3.0)], [(-2.0, 1.0), (6.0, 1.0)]]
     lines4 = [[(0.0, 0.0), (4.0, 0.0), (4.0, 1.0), (4.0, 6.0)], [(0.0, 0.0), (3.0, 4.0), (6.0, 0.0), (9.0, 4.0)], [(5.0, 5.0), (5.0, 0.0), (0.0, 0.0), (-3.0, -4.0)]]
     ratios = (-0.5, 0.0, 0.3, 0.55, 0.7, 1.0, 1.5)
+    # the laws are invariant under scaling: the same witnesses at 1e-9 (a line shorter than sqrt(epsilon) is still a line) and at 1e6
+    scaled = lambda ws, k: [[(x * k, y * k) for x, y in w] for w in ws]
+    lines2 = lines2 + scaled(lines2, 1e-9) + scaled(lines2, 1e6)
+    lines4 = lines4 + scaled(lines4[:2], 1e-9) + scaled(lines4[:1], 1e6)
 
     def seglen(a, b):
         return math.hypot(b[0] - a[0], b[1] - a[1])
@@ -369,7 +376,7 @@ def deprecated_twins(rep, F):
         lens = [seglen(cs[i], cs[i + 1]) for i in range(len(cs) - 1)]
         s_ = r * sum(lens)
         for i, l in enumerate(lens):
-            if s_ <= l + 1e-12:
+            if s_ <= l * (1 + 1e-12):
                 t = s_ / l
                 return (cs[i][0] + (cs[i + 1][0] - cs[i][0]) * t, cs[i][1] + (cs[i + 1][1] - cs[i][1]) * t)
             s_ -= l
@@ -444,7 +451,8 @@ def deprecated_twins(rep, F):
                     got = dec_pt(ev.ev(hit[0].ret))
                     want = ref_point(cs, r)
                     k += 1
-                    if got is None or abs(got[0] - want[0]) > 1e-9 or abs(got[1] - want[1]) > 1e-9:
+                    tol = 1e-9 * max(1e-300, max(abs(c) for pt_ in cs for c in pt_))
+                    if got is None or abs(got[0] - want[0]) > tol or abs(got[1] - want[1]) > tol:
                         bad = "line_interpolate_point(%s, %s) = %s; the point at that fraction of the length is (%.6g, %.6g)" % (cs, r, got, want[0], want[1])
                         break
                     if 0.0 <= r <= 1.0:
